@@ -66,10 +66,16 @@ TreeOK(g, st, nord) ==
     /\ BagIncluded(g, L)
     /\ SumW(DOMAIN L, LAMBDA j : L[j][3]) = SumW(EIdx(g), LAMBDA j : Wt(g, j))
 
+\* the node-induced subgraph on the even nodes (what NodeFiltered by parity presents)
+NFeven(g) == [g EXCEPT !.E = SelectSeq(g.E, LAMBDA e : e[1] % 2 = 0 /\ e[2] % 2 = 0)]
+EvenNodes(g) == {v \in Nodes(g) : v % 2 = 0}
+
 Bad(r) ==
     LET g == [n |-> r.n, dir |-> r.dir, E |-> r.E]
         chk(f, P(_)) == IF Has(r, f) /\ ~(Ok(r[f]) /\ P(r[f][2])) THEN {f} ELSE {}
     IN
+    (IF Has(r, "mst_nf") /\ ~(Ok(r.mst_nf) /\ ForestOK(NFeven(g), r.mst_nf[2], EvenNodes(g), r.nord_nf[2])) THEN {"mst_nf"} ELSE {})
+    \cup
     IF Has(r, "tree")
     THEN chk("mst", LAMBDA v : TreeOK(g, v, r.nord[2])) \cup chk("prim", LAMBDA v : TreeOK(g, v, r.nord[2]))
     ELSE chk("mst", LAMBDA v : ForestOK(g, v, Nodes(g), r.nord[2]))
